@@ -144,7 +144,7 @@ impl Keyspace {
     }
     pub fn batch(&self) -> Batch {
         trace::push(Ev::BatchNew);
-        Batch { n: 0, ops: [BOP_NONE; BMAX] }
+        Batch { n: 0, ops: [BOP_NONE; BMAX], durability: None }
     }
     pub fn persist(&self, mode: PersistMode) -> Result<()> {
         trace::push(Ev::Persist { sync_all: mode == PersistMode::SyncAll });
@@ -168,6 +168,8 @@ const BMAX: usize = 6;
 pub struct Batch {
     n: usize,
     ops: [BOp; BMAX],
+    /// fjall's `Batch::durability(mode)`: persist with that mode as part of the commit
+    durability: Option<PersistMode>,
 }
 fn small_val(v: &[u8]) -> (usize, [u8; 2]) {
     let mut a = [0u8; 2];
@@ -216,6 +218,11 @@ impl Batch {
         }
         self.n += 1;
     }
+    #[must_use]
+    pub fn durability(mut self, mode: Option<PersistMode>) -> Self {
+        self.durability = mode;
+        self
+    }
     #[allow(static_mut_refs)]
     pub fn commit(self) -> Result<()> {
         unsafe {
@@ -236,6 +243,10 @@ impl Batch {
         }
         trace::push(Ev::Commit { nops: self.n as u8 });
         sched::yield_point(Yield::Committed);
+        if let Some(mode) = self.durability {
+            trace::push(Ev::Persist { sync_all: mode == PersistMode::SyncAll });
+            sched::yield_point(Yield::Persisted);
+        }
         Ok(())
     }
 }
